@@ -17,11 +17,44 @@ use serde_json::json;
 
 pub struct C11;
 
-#[derive(Debug, Clone, PartialEq)]
+#[derive(Debug, Clone)]
 enum Item {
-    Ok { kind: u8, start: usize, len: usize },
+    /// `start` is the offset of the value inside the section, or `UNKNOWN` when the yielded
+    /// value does not point into the section (an owned copy): then only the content is compared
+    Ok {
+        kind: u8,
+        start: usize,
+        len: usize,
+        content: u64,
+    },
     Leftovers,
     Invalid(u8, u16),
+}
+
+const UNKNOWN: usize = usize::MAX;
+
+impl PartialEq for Item {
+    fn eq(&self, other: &Item) -> bool {
+        match (self, other) {
+            (
+                Item::Ok {
+                    kind: k1,
+                    start: s1,
+                    len: l1,
+                    content: c1,
+                },
+                Item::Ok {
+                    kind: k2,
+                    start: s2,
+                    len: l2,
+                    content: c2,
+                },
+            ) => k1 == k2 && l1 == l2 && c1 == c2 && (s1 == s2 || *s1 == UNKNOWN || *s2 == UNKNOWN),
+            (Item::Leftovers, Item::Leftovers) => true,
+            (Item::Invalid(a, b), Item::Invalid(c, d)) => a == c && b == d,
+            _ => false,
+        }
+    }
 }
 
 /// The reference: read type, big-endian 16-bit length, that many bytes; fewer than
@@ -46,20 +79,29 @@ fn reference(section: &[u8]) -> Vec<Item> {
             kind,
             start: off + 3,
             len: l,
+            content: fnv(&section[off + 3..off + 3 + l]),
         });
         off += 3 + l;
     }
     out
 }
 
-fn to_item(x: Result<v2::TypeLengthValue<'_>, E2>, base: *const u8) -> Item {
+fn to_item(x: Result<v2::TypeLengthValue<'_>, E2>, base: (*const u8, usize)) -> Item {
     match x {
         Ok(t) => {
-            let start = (t.value.as_ptr() as usize).wrapping_sub(base as usize);
+            let p = t.value.as_ptr() as usize;
+            let b = base.0 as usize;
+            // offset inside the section if the value is borrowed from it
+            let start = if p >= b && p + t.value.len() <= b + base.1 {
+                p - b
+            } else {
+                UNKNOWN
+            };
             Item::Ok {
                 kind: t.kind,
                 start,
                 len: t.value.len(),
+                content: fnv(&t.value),
             }
         }
         Err(E2::Leftovers(_)) => Item::Leftovers,
@@ -70,7 +112,7 @@ fn to_item(x: Result<v2::TypeLengthValue<'_>, E2>, base: *const u8) -> Item {
 }
 
 /// What the real iterator yields, with value offsets relative to `base`.
-fn observe(it: &mut TypeLengthValues<'_>, base: *const u8, limit: usize) -> Vec<Item> {
+fn observe(it: &mut TypeLengthValues<'_>, base: (*const u8, usize), limit: usize) -> Vec<Item> {
     let mut out = Vec::new();
     while out.len() < limit {
         match it.next() {
@@ -141,7 +183,7 @@ impl<'s> Judge<'s> {
                 ),
             ));
         }
-        let base = it.as_bytes().as_ptr();
+        let base = (it.as_bytes().as_ptr(), it.as_bytes().len());
         let limit = section.len() / 3 + 8;
         // seeded history: copies of the iterator are taken at some positions and driven independently
         let mut rng = Rng::new(aux);
@@ -257,12 +299,14 @@ impl<'s> Judge<'s> {
                         kind: 0,
                         start: n,
                         len: 0,
+                        content: 0,
                     }];
                     got.extend(last);
                     let mut exp = vec![Item::Ok {
                         kind: 0,
                         start: remaining.len(),
                         len: 0,
+                        content: 0,
                     }];
                     exp.extend(remaining.last().cloned());
                     Some(("count/last", got, exp))
@@ -350,6 +394,49 @@ impl Check for C11 {
                 sc.sub = "raw_section".into();
                 sc.set_tag("fault", "raw_section");
                 let mut section: Vec<u8> = Vec::new();
+                match rng.below(8) {
+                    0 => {
+                        // a caller passing the whole header where the TLV bytes were meant
+                        let (w, _) = wire::gen_v2(rng, false);
+                        section = w.bytes;
+                        if rng.chance(1, 2) {
+                            let l = rng.range(0, 9);
+                            section.extend(rng.bytes(l));
+                        }
+                        sc.stream = section;
+                        sc.intended_header_len = sc.stream.len();
+                        sc.events = vec![Ev::Deliver(sc.stream.len()), Ev::Stall];
+                        sc.set_tag("fault", "raw_section_whole_header");
+                        return sc;
+                    }
+                    1 => {
+                        // realistic TLVs back to back
+                        let n = rng.range(1, 8);
+                        for _ in 0..n {
+                            let (t, v) = wire::realistic_tlv(rng);
+                            section.extend(wire::tlv_to_bytes(t, &v));
+                        }
+                        if rng.chance(1, 3) {
+                            let cut = rng.range(0, section.len());
+                            section.truncate(cut);
+                        }
+                        sc.stream = section;
+                        sc.intended_header_len = sc.stream.len();
+                        sc.events = vec![Ev::Deliver(sc.stream.len()), Ev::Stall];
+                        sc.set_tag("fault", "raw_section_realistic");
+                        return sc;
+                    }
+                    2 if index % 4096 == 11 => {
+                        // more items than a 16-bit counter holds
+                        section = vec![0u8; 196_608 + rng.range(0, 5)];
+                        sc.stream = section;
+                        sc.intended_header_len = sc.stream.len();
+                        sc.events = vec![Ev::Deliver(sc.stream.len()), Ev::Stall];
+                        sc.set_tag("fault", "raw_section_dense");
+                        return sc;
+                    }
+                    _ => {}
+                }
                 let n_small = rng.range(0, 3);
                 for _ in 0..n_small {
                     let l = rng.range(0, 6);
